@@ -948,12 +948,16 @@ func (s *Server) MarkDeleting(res Res, ns, name string) {
 
 // RunGC performs the pending garbage-collection tasks (owner deletions).
 // Returns the number of dependents touched.
-func (s *Server) RunGC() int {
+func (s *Server) RunGC() int { return s.RunGCOn(Pods, Revisions, PVCs) }
+
+// RunGCOn processes the pending tasks for the given kinds only and keeps the tasks pending
+// when not every kind was processed (the real GC handles dependents in no particular order).
+func (s *Server) RunGCOn(kinds ...Res) int {
 	s.mu.Lock()
 	defer s.mu.Unlock()
 	n := 0
 	for _, t := range s.gcq {
-		for _, res := range []Res{Pods, Revisions, PVCs} {
+		for _, res := range kinds {
 			for key, o := range s.store[res] {
 				m := acc(o)
 				idx := -1
@@ -978,7 +982,9 @@ func (s *Server) RunGC() int {
 			}
 		}
 	}
-	s.gcq = nil
+	if len(kinds) >= 3 {
+		s.gcq = nil
+	}
 	return n
 }
 
